@@ -7,16 +7,34 @@ mod model;
 mod report;
 mod rng;
 mod util;
+mod worker;
 
+mod c01;
+mod c02;
+mod c03;
+mod c04;
+mod c05;
+mod c07;
+mod c09;
+mod c08;
 mod c10;
+mod c11;
+mod c12;
+mod c13;
 mod c14;
+mod c15;
+mod c16;
+mod c17;
 mod c18;
 mod c19;
+mod c20;
+mod cmrt;
 mod registry;
 mod gen;
 mod htmlk;
 mod opts;
 mod ser;
+mod spk;
 mod treegen;
 
 use report::Report;
@@ -75,6 +93,23 @@ fn main() {
             match out {
                 Some(p) => std::fs::write(p, js).expect("write report"),
                 None => println!("{}", js),
+            }
+        }
+        "worker" => match args[2].as_str() {
+            "C01" => worker::worker_main(c01::worker_case),
+            "C05" => c05::worker(),
+            _ => std::process::exit(2),
+        },
+        "regen" => {
+            // cvh regen <table> <outdir>: regenerate a finite table from the real code (DESIGN 3.3)
+            let outdir = args.get(3).map(|s| s.as_str()).unwrap_or("/verif/lean/Comrak/Generated");
+            let r = match args[2].as_str() {
+                "specialchars" => c13::regen(outdir),
+                other => Err(format!("unknown table {}", other)),
+            };
+            if let Err(e) = r {
+                eprintln!("regen {} failed: {}", args[2], e);
+                std::process::exit(1);
             }
         }
         "replay" => {
